@@ -60,7 +60,12 @@ RULE = ("per enumeration (1..200 members; names that are prefixes of each other,
         "copy/view/reshape/encode, chains of up to 3 of these; some taken BEFORE the whole array was touched) are "
         "decoded both ways and compared with the model's decoding of those positions and with a freshly built "
         "EnumArray of the same indices (decode twice, decode_to_str, repr, str, == member, encode again); then "
-        "the whole array once more")
+        "the whole array once more.  LONG sequences: lists / tuples of 65537..70000 items given run by run (sent "
+        "to the model in that form, the index array compared run-length compressed): 2 all-valid ones (decoded: every "
+        "position by decode_to_str, run borders / 65535 / 65536 / every 997th by decode) and, for ints, names and "
+        "members, inputs whose ONLY invalid element (a float inside the index range, an out-of-range index, the "
+        "bytes of a member name, None, an unknown name, a foreign member, an element of another kind) is at "
+        "position 0, 65535, 65536 or last")
 TRUSTED = ["numpy 1.26 (asarray, isin, argsort, searchsorted, fancy indexing, unicode comparison) and Python's "
            "enum machinery are modelled by EnumModel.v (lists, insertion sort, binary search), covered by the "
            "correspondence only"]
@@ -141,6 +146,10 @@ def mk_elem(classes, el):
         return members_of(classes[el[1]])[el[2]]
     if t == "ma":             # ["ma", k, alias name, index of the member it points at]: E[alias]
         return classes[el[1]][el[2]]
+    if t == "ob":             # the bytes of a string (e.g. of a member name)
+        return el[1].encode("ascii")
+    if t == "of":             # a float, given as text (e.g. "2.0", "2.7": inside the index range, but no int)
+        return float(el[1])
     if t == "o":
         return {"float": 1.0, "float0": 0.0, "bytes": b"a", "none": None, "npint": numpy.int64(0),
                 "list": [0], "complex": 1j}[el[1]]
@@ -376,7 +385,67 @@ def run_views(classes, c):
     return [[whole] + out + [decode_obs(classes, a)], checks]
 
 
+def expand_runs(runs):
+    out = []
+    for count, el in runs:
+        out.extend([el] * count)
+    return out
+
+
+def rle(values):
+    out = []
+    for v in values:
+        if out and out[-1][1] == v:
+            out[-1][0] += 1
+        else:
+            out.append([1, v])
+    return out
+
+
+def long_case_as_encode(c):
+    """The long case written out element by element (for the oracle; never stored)."""
+    return {"op": "encode", "enums": c["enums"],
+            "input": {"k": "seq", "container": c["container"], "elems": expand_runs(c["runs"])}}
+
+
+def run_long(classes, c):
+    """E.encode of a list / tuple of more than 65536 items; the index array comes back run-length
+    compressed, with the findings of decoding it (every position by decode_to_str, first / last / run
+    borders / a sample by decode, encoding it again) in `checks`."""
+    E = classes[0]
+    vals = [mk_elem(classes, el) for el in expand_runs(c["runs"])]
+    arg = tuple(vals) if c["container"] == "tuple" else vals
+    a = E.encode(arg)
+    idx = obs_indices(a)
+    checks = []
+    names = [str(s) for s in E.names]
+    members = members_of(E)
+    if len(idx) != len(vals):
+        checks.append(f"{len(vals)} items were encoded as {len(idx)} indices")
+    if all(0 <= i < len(names) for i in idx):
+        strs = guarded(lambda: [str(s) for s in a.decode_to_str()])
+        if isinstance(strs, Err) or strs != [names[i] for i in idx]:
+            checks.append("decode_to_str does not give the names of the indices held")
+        dec = guarded(lambda: a.decode())
+        if isinstance(dec, Err) or len(dec) != len(idx):
+            checks.append("decode failed or has another length")
+        else:
+            borders, p = set(), 0
+            for count, _ in c["runs"]:
+                borders.update({p, p + count - 1})
+                p += count
+            for q in sorted(borders | {0, 65535, 65536, len(idx) - 1} | set(range(0, len(idx), 997))):
+                if 0 <= q < len(idx) and dec[q] is not members[idx[q]]:
+                    checks.append(f"position {q}: index {idx[q]} decoded to {dec[q]!r}")
+                    break
+        if guarded(lambda: obs_indices(E.encode(a))) != idx:
+            checks.append("encoding the encoded array again changed it")
+    return [rle(idx), checks]
+
+
 def run_impl(c):
+    if c["op"] == "long":
+        return run_long(classes_of(c), c)
     if c["op"] == "views":
         return run_views(classes_of(c), c)
     if c["op"] == "multi":
@@ -464,13 +533,16 @@ def cinput(c, x):
 
 
 def obs_for_coq(c, o):
-    if c["op"] == "views" and not isinstance(o, Err):
+    if c["op"] in ("views", "long") and not isinstance(o, Err):
         return o[0]               # the comparisons with fresh arrays are the oracle's business
     return o
 
 
 def coq_case(c):
     op = c["op"]
+    if op == "long":
+        runs = clist([f"({cz(count)}, {celem(c, el)})" for count, el in c["runs"]])
+        return f"(KLong {cenum(0, c['enums'][0])} {runs})"
     if op == "views":
         n = input_size(c)
         sel = clist([clist(["%d%%nat" % p for p in positions(n, chain)]) for chain in c["views"]])
@@ -619,8 +691,31 @@ def oracle_views(c, o):
     return None
 
 
+def oracle_long(c, o):
+    total = sum(count for count, _ in c["runs"])
+    where, p = [], 0
+    for count, el in c["runs"]:
+        if count == 1:
+            where.append(f"{el[:2]} at position {p}")
+        p += count
+    what = f"a {c['container']} of {total} items ({'; '.join(where[:3]) or 'all runs long'})"
+    if isinstance(o, Err):
+        msg = oracle(long_case_as_encode(c), o)
+    else:
+        idx = [v for count, v in o[0] for _ in range(count)]
+        msg = oracle(long_case_as_encode(c), idx)
+        if msg is None and o[1]:
+            msg = "long-decode: " + o[1][0]
+    if msg:
+        cls, _, rest = msg.partition(":")
+        return f"long-{cls}: {what}:{rest}"
+    return None
+
+
 def oracle(c, o):
     op = c["op"]
+    if op == "long":
+        return oracle_long(c, o)
     if op == "views":
         return oracle_views(c, o)
     if op == "multi":
@@ -703,6 +798,8 @@ def oracle(c, o):
 
 
 def input_size(c):
+    if c["op"] == "long":
+        return sum(count for count, _ in c["runs"])
     if c["op"] == "multi":
         return sum(input_size(step_case(c, st)) for st in c["steps"])
     if "input" in c:
@@ -722,6 +819,9 @@ def nontrivial(c, o):
 def classify(c, o):
     op = c["op"]
     tag = op
+    if op == "long":
+        kinds = sorted({el[0] for _, el in c["runs"]})
+        return tag + ":" + c["container"] + ":" + "+".join(kinds) + (":" + o.kind if isinstance(o, Err) else "")
     if op == "views":
         tag += ":" + c["input"]["k"] + (":pre=" + "+".join(sorted(set(c["pre"]))) if c["pre"] else ":untouched")
         tag += ":" + "+".join(sorted({spec[0] for chain in c["views"] for spec in chain}))
@@ -1117,6 +1217,54 @@ def view_cases(rng, count):
     return cases
 
 
+def long_cases(rng, tier):
+    """Lists / tuples of 65537..70000 items, run by run: all valid; or valid but for ONE element (a float
+    inside the index range or an out-of-range index among ints, bytes of a member name / None / an unknown
+    name among names, a member of another enumeration / a name among members) at position 0, 65535, 65536
+    or last."""
+    cases = []
+    n = rng.choice([2, 3, 3, 4, 6, 12, 40])
+    names = gen_names(rng, n)
+    foreign = gen_names(rng, rng.choice([n, n + 1, 3]))
+    enums = [names, foreign]
+
+    def total():
+        return rng.randrange(65537, 70001)
+
+    def good_runs(kind, length):
+        """valid elements of one kind in a few long runs adding up to `length`"""
+        k = rng.randrange(0, 4)
+        cuts = sorted({0, length} | ({rng.randrange(1, length) for _ in range(k)} if length > 2 else set()))
+        runs = []
+        for a, b in zip(cuts, cuts[1:]):
+            i = rng.choice([0, n - 1, rng.randrange(n)])
+            el = {"i": ["i", i], "s": ["s", names[i]], "m": ["m", 0, i]}[kind]
+            runs.append([b - a, el])
+        return runs
+
+    def with_bad(kind, bad, pos, length):
+        before, after = good_runs(kind, pos) if pos else [], good_runs(kind, length - pos - 1) if pos < length - 1 else []
+        return before + [[1, bad]] + after
+
+    def add(runs):
+        cases.append({"op": "long", "enums": enums, "container": rng.choice(["list", "tuple"]), "runs": runs})
+
+    for kind in (rng.sample("ism", 2) if tier == "quick" else "ism"):
+        add(good_runs(kind, total()))
+    inside = rng.randrange(n)
+    bads = {"i": [["of", "%d.0" % inside], ["of", "%d.7" % inside], ["i", n], ["i", -1], ["o", "none"], ["s", names[0]]],
+            "s": [["ob", names[inside]], ["o", "none"], ["s", names[0] + "~"], ["o", "bytes"], ["i", 0], ["m", 0, inside]],
+            "m": [["m", 1, min(inside, len(foreign) - 1)], ["s", names[inside]], ["i", inside], ["o", "none"]]}
+    per_kind = {"quick": 1, "escalated": 3, "thorough": 6}[tier]
+    for kind in "ism":
+        for bad in ([bads[kind][0]] + rng.sample(bads[kind][1:], min(per_kind, len(bads[kind]) - 1))):
+            for where in ("first", "65535", "65536", "last"):
+                length = total()
+                pos = {"first": 0, "65535": 65535, "65536": 65536, "last": length - 1}[where]
+                add(with_bad(kind, bad, pos, length))
+    return cases
+
+
 def variant(rng, names):
     """Another enumeration a reform could declare under the same name: the same members in another
     order, one member replaced / added / removed, another size, or something else altogether."""
@@ -1268,6 +1416,7 @@ def generate(rng, tier):
         cases += battery(rng, names, foreign, aliases)
     cases += multi_cases(rng, {"quick": 60, "escalated": 250, "thorough": 1200}[tier])
     cases += view_cases(rng, {"quick": 250, "escalated": 1000, "thorough": 5000}[tier])
+    cases += long_cases(rng, tier)
     return cases
 
 
@@ -1298,7 +1447,7 @@ def _with_payload(c, new):
 
 
 def neighbours(c, rng):
-    if c["op"] in ("views", "multi"):
+    if c["op"] in ("views", "multi", "long"):
         return []
     p = _payload(c)
     if p is None:
@@ -1318,6 +1467,8 @@ def neighbours(c, rng):
 
 
 def shrink(c, still_fails):
+    if c["op"] == "long":
+        return None
     if c["op"] == "views":
         views, early = list(c["views"]), list(c["early"])
         changed = False
